@@ -112,4 +112,16 @@ let run (_prefix : string) (cfg : config) (parts : string list) (_src : string)
               ("roundtrip_diff_reparsed", JS (trunc (sexp_string (at b parent)))) ]
           end
       | _, _ -> []) in
-  hooks @ classes @ directives @ erase_part @ sites_part @ hygiene_part @ shapes_part @ roundtrip_part
+  let literals_part =
+    on parts "literals" (fun () ->
+      let one name = function
+        | None -> []
+        | Some t ->
+            (match collect true t with
+             | Some es ->
+                 [ (name ^ "_literals",
+                    JL (List.map (fun e -> JL [ JS (implode e.le_value); JI (int_of_n (fst e.le_span)); JI (int_of_n (snd e.le_span));
+                                                (match e.le_ident with Some i -> JS (implode i) | None -> JL []) ]) es)) ]
+             | None -> []) in
+      one "in" ast_in @ one "out" ast_out) in
+  hooks @ classes @ directives @ erase_part @ sites_part @ hygiene_part @ shapes_part @ roundtrip_part @ literals_part
